@@ -426,7 +426,7 @@ impl PoolGen {
             let tokens = log_uniform(&mut self.rng, 1, 10_000_000);
             for (i, a) in p.info.assets.iter().enumerate() {
                 let skew = self.rng.gen_range(50u128..200);
-                let amt = tokens * 10u128.pow(decs[i] as u32) / 100 * skew;
+                let amt = tokens * 10u128.pow(decs.get(i).copied().unwrap_or(6).min(24) as u32) / 100 * skew;
                 if self.rng.gen_range(0..25) == 0 {
                     continue; // incomplete first deposit
                 }
